@@ -122,6 +122,11 @@ def function_text(case, indent):
     if text == 'comment_setter':
         line = f'# replaces the old @{name}.setter'
     decos = list(case['decos'])           # outermost first, e.g. ['staticmethod', 'pedantic']
+    if case.get('wraps') and not case.get('_donor'):
+        # the function under test carries the attributes of ANOTHER, already decorated function (functools.wraps(donor) / only its
+        # __dict__): applied first, below every other decorator
+        decos.append('functools.wraps(_pv_donor)' if case['wraps'] == 'full' else
+                     "functools.partial(functools.update_wrapper, wrapped=_pv_donor, assigned=(), updated=('__dict__',))")
     for k, d in enumerate(decos):
         l = '@' + d
         if where == 'deco' and k == len(decos) - 1:
@@ -177,8 +182,17 @@ def module_text(case):
             shadow = ''.join('@' + d + '\n' for d in case['decos']) + f'def {case["name"]}({sig}) -> None:\n    return None\n_pv_shadow = {case["name"]}\n'
         if case.get('sibling'):
             return head + shadow + factory_text(case)
-        return head + shadow + function_text(case, 0)
+        donor = ''
+        if case.get('wraps'):
+            # an earlier, decorated function with the very same def statement: the one whose name / doc / attributes are taken over
+            donor = function_text(dict(case, _donor=True), 0) + f'_pv_donor = {case["name"]}\n'
+        return head + shadow + donor + function_text(case, 0)
     body = function_text(case, 4)
+    donor = ''
+    if case.get('wraps'):
+        # the method of another, already decorated class (same def statement) whose name / doc / attributes the method under test keeps
+        donor = (('@pedantic_class\n' if style == 'class_deco' else '') + 'class _PvDonor:\n' + function_text(dict(case, _donor=True), 4)
+                 + f'_pv_donor = _PvDonor.{case["name"]}\n')
     if style == 'property':
         # getter + setter of one property `name`
         g = dict(case, decos=['property'], params=[], ret=case['prop_get_ret'], name=case['name'], text='none', gen=False)
@@ -192,7 +206,7 @@ def module_text(case):
         dunder = '    def __len__(self):\n        _pv_len()\n        return 0\n'
     elif falsy == 'bool':
         dunder = '    def __bool__(self):\n        _pv_len()\n        return False\n'
-    out = head + 'class K:\n' + dunder + body + 'class Sub(K):\n    pass\n'
+    out = head + donor + 'class K:\n' + dunder + body + 'class Sub(K):\n    pass\n'
     return out
 
 
@@ -456,6 +470,7 @@ def run_case(case):
         return spying
     extra['pedantic'] = spy(P.pedantic)
     extra['require_kwargs'] = spy(P.require_kwargs)
+    extra['pedantic_class'] = pedantic_class
     res = {}
     try:
         mod = make_module(module_text(case), extra)
@@ -484,7 +499,7 @@ def run_case(case):
         except BaseException as ex:
             return {'decoration': exc_code(ex), 'exc': type(ex).__name__ + ': ' + str(ex)[:150]}
     else:
-        if len(r.seen) != 1 + (1 if case.get('shadow') else 0) + (1 if case.get('sibling') else 0):
+        if len(r.seen) != 1 + (1 if case.get('shadow') else 0) + (1 if case.get('sibling') else 0) + (1 if case.get('wraps') else 0):
             return {'error': f'{len(r.seen)} functions reached the decorator'}
         func_obj = r.seen[-2] if (case.get('sibling') and case['sibling'].get('order', 'before') != 'before') else r.seen[-1]
         try:
